@@ -49,7 +49,7 @@ func init() {
 var c16Cmds = []string{"view", "view-raw", "diff", "copy", "sum", "sum-copy", "sum-diff", "generate"}
 var c16Windows = []string{"default", "past", "future", "beyond-archive0", "beyond-all", "degenerate", "inverted"}
 var c16TextOuts = []string{"none", "stdout", "file", "missing-dir", "directory", "dev-full"}
-var c16Envs = []string{"ok", "src-missing", "src-truncated", "src-other-layout", "dest-unwritable", "generate-dest-exists"}
+var c16Envs = []string{"ok", "src-missing", "src-truncated", "src-other-layout", "src-other-layout-points", "dest-other-layout-points", "dest-unwritable", "generate-dest-exists"}
 
 type c16World struct {
 	root       string
@@ -142,10 +142,22 @@ func c16Eval(c *fw.Ctx, k c16Case) (sig, desc string, nontrivial bool, outcome s
 			os.Truncate(f, 21)
 		}
 		srcBroken = true
-	case "src-other-layout":
+	case "src-other-layout", "src-other-layout-points":
+		if k.Env == "src-other-layout-points" { // same steps and archive count, one more point in the last archive
+			oa := append([]wsp.Arch{}, l.Archs...)
+			oa[len(oa)-1].N++
+			otherFile = &BFile{L: wsp.Layout{Archs: oa, Method: 2}, Rings: EmptyRings(wsp.Layout{Archs: oa})}
+		}
 		for _, f := range srcFiles {
 			otherFile.Write(f)
 		}
+	case "dest-other-layout-points":
+		// the EXISTING destination differs from the source (and from the -retentions option) only in the last archive's point count
+		oa := append([]wsp.Arch{}, l.Archs...)
+		oa[len(oa)-1].N++
+		df := &BFile{L: wsp.Layout{Archs: oa, Method: 2}, Rings: EmptyRings(wsp.Layout{Archs: oa})}
+		df.Write(filepath.Join(dbase, "a.wsp"))
+		df.Write(filepath.Join(dbase, "it", "x", "sum.wsp"))
 	case "dest-unwritable":
 		dbase = filepath.Join(w.root, "plainfile", "sub")
 		genDest = filepath.Join(w.root, "plainfile", "new.wsp")
@@ -239,7 +251,9 @@ func c16Eval(c *fw.Ctx, k c16Case) (sig, desc string, nontrivial bool, outcome s
 		fault = "text-out-cannot-be-written"
 	case usesSrc && srcBroken:
 		fault = "input-" + strings.TrimPrefix(k.Env, "src-")
-	case k.Env == "src-other-layout" && (k.Cmd == "diff" || k.Cmd == "copy" || k.Cmd == "sum-copy" || k.Cmd == "sum-diff"):
+	case (k.Env == "src-other-layout" || k.Env == "src-other-layout-points") && (k.Cmd == "diff" || k.Cmd == "copy" || k.Cmd == "sum-copy" || k.Cmd == "sum-diff"):
+		fault = "layout-mismatch"
+	case k.Env == "dest-other-layout-points" && (k.Cmd == "diff" || k.Cmd == "copy" || k.Cmd == "sum-copy" || k.Cmd == "sum-diff"):
 		fault = "layout-mismatch"
 	case usesDest && destBroken && k.Cmd != "diff" && k.Cmd != "sum-diff":
 		fault = "destination-not-creatable"
@@ -313,7 +327,7 @@ func c16Eval(c *fw.Ctx, k c16Case) (sig, desc string, nontrivial bool, outcome s
 		return ""
 	}
 	srcL, srcR := l, w.src
-	if k.Env == "src-other-layout" {
+	if k.Env == "src-other-layout" || k.Env == "src-other-layout-points" {
 		srcL, srcR = otherFile.L, otherFile.Rings
 	}
 	switch k.Cmd {
@@ -334,7 +348,7 @@ func c16Eval(c *fw.Ctx, k c16Case) (sig, desc string, nontrivial bool, outcome s
 	case "sum":
 		if wantsText {
 			files := w.items
-			if k.Env == "src-other-layout" {
+			if k.Env == "src-other-layout" || k.Env == "src-other-layout-points" {
 				files = [][]wsp.Ring{otherFile.Rings, otherFile.Rings}
 			}
 			exp, _ := ExpSum(srcL, files, k.Archive, from, u, w.now)
